@@ -41,9 +41,13 @@ def anchors():
 def related_checks(patch_text, owner):
     files = set(re.findall(r"^\+\+\+ b/(\S+)", patch_text, flags=re.M))
     rel = {owner} if owner else set()
+    anchored = set()
     for pid, fs in anchors().items():
         if files & fs:
             rel.add(pid)
+            anchored |= files & fs
+    if files - anchored:            # a touched file that no property is anchored in (e.g. dict_of_predicate.py): any check may be the one that notices
+        return sorted(anchors())
     return sorted(rel)
 
 
@@ -53,6 +57,8 @@ def run_one(sdir, checks_arg, keep=False):
     owner = meta.get("property")
     patch = os.path.join(sdir, "patch.diff")
     patch_text = open(patch).read()
+    if meta.get("retired"):        # the change no longer breaks the property on the current tree (see meta.json): keep the recorded result
+        return None
     tmp = tempfile.mkdtemp(prefix="seedrun_")
     res = {"seed": os.path.basename(sdir), "property": owner, "files": sorted(set(re.findall(r"^\+\+\+ b/(\S+)", patch_text, flags=re.M)))}
     try:
@@ -138,6 +144,9 @@ def main():
                 r = f.result()
             except Exception as e:  # noqa: BLE001
                 r = {"seed": os.path.basename(d), "error": repr(e)}
+            if r is None:            # retired seed: the recorded result stays
+                print(os.path.basename(d), "retired (kept as recorded)", flush=True)
+                continue
             results[os.path.basename(d)] = r
             print(os.path.basename(d), "caught_by", r.get("caught_by"), "tests_pass", r.get("tests_pass"),
                   "demo", r.get("demo_clean_exit"), r.get("demo_patched_exit"), flush=True)
